@@ -176,6 +176,7 @@ class Sub:
     quick: tuple[int, int] = (4, 100)  # (shards, examples per shard)
     thorough: tuple[int, int] = (16, 1000)
     shrink: bool = True
+    shrink_quick: bool = True  # expensive oracles: keep the unshrunk failing input in the quick tier
     timeout_quick: int = 240  # wall seconds per shard (hard kill = harness error; soft deadline at 60 %)
     timeout_thorough: int = 2400
     exhaustive: bool = False
@@ -187,7 +188,7 @@ def run_given(ctx: Ctx, sub: Sub, max_examples: int) -> None:
     import hypothesis
     from hypothesis import HealthCheck, Phase, given, seed, settings
 
-    phases = [Phase.generate, Phase.target] + ([Phase.shrink] if sub.shrink else [])
+    phases = [Phase.generate, Phase.target] + ([Phase.shrink] if sub.shrink and (sub.shrink_quick or ctx.tier != "quick") else [])
     st_ = settings(
         max_examples=max_examples,
         database=None,
